@@ -160,6 +160,11 @@ func (c *c20_bn254) newPoly(form, coeffs string) (*iop_bn254.Polynomial, bool) {
 
 // runs a script on p; observations are appended to out
 func (c *c20_bn254) script(p *iop_bn254.Polynomial, script string) (*iop_bn254.Polynomial, []string, bool) {
+	return c.scriptD(p, script, c.dom)
+}
+
+// the same with the domains supplied by the caller (domains with a caller-chosen coset shift)
+func (c *c20_bn254) scriptD(p *iop_bn254.Polynomial, script string, dom func(int) *fft_bn254.Domain) (*iop_bn254.Polynomial, []string, bool) {
 	out := []string{}
 	if script == "-" {
 		return p, out, true
@@ -189,7 +194,7 @@ func (c *c20_bn254) script(p *iop_bn254.Polynomial, script string) (*iop_bn254.P
 			if err != nil || m > 20 {
 				return p, out, false
 			}
-			d := c.dom(int(m))
+			d := dom(int(m))
 			switch tok[0] {
 			case 'L':
 				p = p.ToLagrange(d, tasks...)
@@ -385,6 +390,38 @@ func (c *c20_bn254) DivX(m0, m1 int, form, coeffs, script string) string {
 	res, err := iop_bn254.DivideByXMinusOne(p, [2]*fft_bn254.Domain{c.dom(m0), c.dom(m1)})
 	if err != nil {
 		return "err:basis"
+	}
+	return c.dump(res)
+}
+
+// DivideByXMinusOne on domains whose coset shift is `shift` (fft.WithShift). shapeOnly: the line lies outside the domain
+// where the division is defined (shift^|big| = 1): only "no panic, no error, shape of the result" is reported.
+func (c *c20_bn254) DivXS(m0, m1 int, shift, form, coeffs, script string, shapeOnly bool) string {
+	p, ok := c.newPoly(form, coeffs)
+	if !ok {
+		return "bad-op"
+	}
+	s := c.el(shift)
+	doms := map[int]*fft_bn254.Domain{}
+	dom := func(m int) *fft_bn254.Domain {
+		d, ok := doms[m]
+		if !ok {
+			d = fft_bn254.NewDomain(uint64(1)<<m, fft_bn254.WithShift(s))
+			doms[m] = d
+		}
+		return d
+	}
+	p, _, ok = c.scriptD(p, script, dom)
+	if !ok {
+		return "bad-op"
+	}
+	res, err := iop_bn254.DivideByXMinusOne(p, [2]*fft_bn254.Domain{dom(m0), dom(m1)})
+	if err != nil {
+		return "err:basis"
+	}
+	if shapeOnly {
+		return "undef " + c.showForm(res.Basis, res.Layout) + "/" + c20int(c.shiftOf(res)) + "/" + strconv.FormatInt(int64(res.Size()), 16) +
+			"/" + strconv.FormatInt(int64(len(res.Coefficients())), 16)
 	}
 	return c.dump(res)
 }
@@ -699,6 +736,11 @@ func (c *c20_bls12377) newPoly(form, coeffs string) (*iop_bls12377.Polynomial, b
 
 // runs a script on p; observations are appended to out
 func (c *c20_bls12377) script(p *iop_bls12377.Polynomial, script string) (*iop_bls12377.Polynomial, []string, bool) {
+	return c.scriptD(p, script, c.dom)
+}
+
+// the same with the domains supplied by the caller (domains with a caller-chosen coset shift)
+func (c *c20_bls12377) scriptD(p *iop_bls12377.Polynomial, script string, dom func(int) *fft_bls12377.Domain) (*iop_bls12377.Polynomial, []string, bool) {
 	out := []string{}
 	if script == "-" {
 		return p, out, true
@@ -728,7 +770,7 @@ func (c *c20_bls12377) script(p *iop_bls12377.Polynomial, script string) (*iop_b
 			if err != nil || m > 20 {
 				return p, out, false
 			}
-			d := c.dom(int(m))
+			d := dom(int(m))
 			switch tok[0] {
 			case 'L':
 				p = p.ToLagrange(d, tasks...)
@@ -924,6 +966,38 @@ func (c *c20_bls12377) DivX(m0, m1 int, form, coeffs, script string) string {
 	res, err := iop_bls12377.DivideByXMinusOne(p, [2]*fft_bls12377.Domain{c.dom(m0), c.dom(m1)})
 	if err != nil {
 		return "err:basis"
+	}
+	return c.dump(res)
+}
+
+// DivideByXMinusOne on domains whose coset shift is `shift` (fft.WithShift). shapeOnly: the line lies outside the domain
+// where the division is defined (shift^|big| = 1): only "no panic, no error, shape of the result" is reported.
+func (c *c20_bls12377) DivXS(m0, m1 int, shift, form, coeffs, script string, shapeOnly bool) string {
+	p, ok := c.newPoly(form, coeffs)
+	if !ok {
+		return "bad-op"
+	}
+	s := c.el(shift)
+	doms := map[int]*fft_bls12377.Domain{}
+	dom := func(m int) *fft_bls12377.Domain {
+		d, ok := doms[m]
+		if !ok {
+			d = fft_bls12377.NewDomain(uint64(1)<<m, fft_bls12377.WithShift(s))
+			doms[m] = d
+		}
+		return d
+	}
+	p, _, ok = c.scriptD(p, script, dom)
+	if !ok {
+		return "bad-op"
+	}
+	res, err := iop_bls12377.DivideByXMinusOne(p, [2]*fft_bls12377.Domain{dom(m0), dom(m1)})
+	if err != nil {
+		return "err:basis"
+	}
+	if shapeOnly {
+		return "undef " + c.showForm(res.Basis, res.Layout) + "/" + c20int(c.shiftOf(res)) + "/" + strconv.FormatInt(int64(res.Size()), 16) +
+			"/" + strconv.FormatInt(int64(len(res.Coefficients())), 16)
 	}
 	return c.dump(res)
 }
@@ -1238,6 +1312,11 @@ func (c *c20_bls12381) newPoly(form, coeffs string) (*iop_bls12381.Polynomial, b
 
 // runs a script on p; observations are appended to out
 func (c *c20_bls12381) script(p *iop_bls12381.Polynomial, script string) (*iop_bls12381.Polynomial, []string, bool) {
+	return c.scriptD(p, script, c.dom)
+}
+
+// the same with the domains supplied by the caller (domains with a caller-chosen coset shift)
+func (c *c20_bls12381) scriptD(p *iop_bls12381.Polynomial, script string, dom func(int) *fft_bls12381.Domain) (*iop_bls12381.Polynomial, []string, bool) {
 	out := []string{}
 	if script == "-" {
 		return p, out, true
@@ -1267,7 +1346,7 @@ func (c *c20_bls12381) script(p *iop_bls12381.Polynomial, script string) (*iop_b
 			if err != nil || m > 20 {
 				return p, out, false
 			}
-			d := c.dom(int(m))
+			d := dom(int(m))
 			switch tok[0] {
 			case 'L':
 				p = p.ToLagrange(d, tasks...)
@@ -1463,6 +1542,38 @@ func (c *c20_bls12381) DivX(m0, m1 int, form, coeffs, script string) string {
 	res, err := iop_bls12381.DivideByXMinusOne(p, [2]*fft_bls12381.Domain{c.dom(m0), c.dom(m1)})
 	if err != nil {
 		return "err:basis"
+	}
+	return c.dump(res)
+}
+
+// DivideByXMinusOne on domains whose coset shift is `shift` (fft.WithShift). shapeOnly: the line lies outside the domain
+// where the division is defined (shift^|big| = 1): only "no panic, no error, shape of the result" is reported.
+func (c *c20_bls12381) DivXS(m0, m1 int, shift, form, coeffs, script string, shapeOnly bool) string {
+	p, ok := c.newPoly(form, coeffs)
+	if !ok {
+		return "bad-op"
+	}
+	s := c.el(shift)
+	doms := map[int]*fft_bls12381.Domain{}
+	dom := func(m int) *fft_bls12381.Domain {
+		d, ok := doms[m]
+		if !ok {
+			d = fft_bls12381.NewDomain(uint64(1)<<m, fft_bls12381.WithShift(s))
+			doms[m] = d
+		}
+		return d
+	}
+	p, _, ok = c.scriptD(p, script, dom)
+	if !ok {
+		return "bad-op"
+	}
+	res, err := iop_bls12381.DivideByXMinusOne(p, [2]*fft_bls12381.Domain{dom(m0), dom(m1)})
+	if err != nil {
+		return "err:basis"
+	}
+	if shapeOnly {
+		return "undef " + c.showForm(res.Basis, res.Layout) + "/" + c20int(c.shiftOf(res)) + "/" + strconv.FormatInt(int64(res.Size()), 16) +
+			"/" + strconv.FormatInt(int64(len(res.Coefficients())), 16)
 	}
 	return c.dump(res)
 }
@@ -1777,6 +1888,11 @@ func (c *c20_bls24315) newPoly(form, coeffs string) (*iop_bls24315.Polynomial, b
 
 // runs a script on p; observations are appended to out
 func (c *c20_bls24315) script(p *iop_bls24315.Polynomial, script string) (*iop_bls24315.Polynomial, []string, bool) {
+	return c.scriptD(p, script, c.dom)
+}
+
+// the same with the domains supplied by the caller (domains with a caller-chosen coset shift)
+func (c *c20_bls24315) scriptD(p *iop_bls24315.Polynomial, script string, dom func(int) *fft_bls24315.Domain) (*iop_bls24315.Polynomial, []string, bool) {
 	out := []string{}
 	if script == "-" {
 		return p, out, true
@@ -1806,7 +1922,7 @@ func (c *c20_bls24315) script(p *iop_bls24315.Polynomial, script string) (*iop_b
 			if err != nil || m > 20 {
 				return p, out, false
 			}
-			d := c.dom(int(m))
+			d := dom(int(m))
 			switch tok[0] {
 			case 'L':
 				p = p.ToLagrange(d, tasks...)
@@ -2002,6 +2118,38 @@ func (c *c20_bls24315) DivX(m0, m1 int, form, coeffs, script string) string {
 	res, err := iop_bls24315.DivideByXMinusOne(p, [2]*fft_bls24315.Domain{c.dom(m0), c.dom(m1)})
 	if err != nil {
 		return "err:basis"
+	}
+	return c.dump(res)
+}
+
+// DivideByXMinusOne on domains whose coset shift is `shift` (fft.WithShift). shapeOnly: the line lies outside the domain
+// where the division is defined (shift^|big| = 1): only "no panic, no error, shape of the result" is reported.
+func (c *c20_bls24315) DivXS(m0, m1 int, shift, form, coeffs, script string, shapeOnly bool) string {
+	p, ok := c.newPoly(form, coeffs)
+	if !ok {
+		return "bad-op"
+	}
+	s := c.el(shift)
+	doms := map[int]*fft_bls24315.Domain{}
+	dom := func(m int) *fft_bls24315.Domain {
+		d, ok := doms[m]
+		if !ok {
+			d = fft_bls24315.NewDomain(uint64(1)<<m, fft_bls24315.WithShift(s))
+			doms[m] = d
+		}
+		return d
+	}
+	p, _, ok = c.scriptD(p, script, dom)
+	if !ok {
+		return "bad-op"
+	}
+	res, err := iop_bls24315.DivideByXMinusOne(p, [2]*fft_bls24315.Domain{dom(m0), dom(m1)})
+	if err != nil {
+		return "err:basis"
+	}
+	if shapeOnly {
+		return "undef " + c.showForm(res.Basis, res.Layout) + "/" + c20int(c.shiftOf(res)) + "/" + strconv.FormatInt(int64(res.Size()), 16) +
+			"/" + strconv.FormatInt(int64(len(res.Coefficients())), 16)
 	}
 	return c.dump(res)
 }
@@ -2316,6 +2464,11 @@ func (c *c20_bls24317) newPoly(form, coeffs string) (*iop_bls24317.Polynomial, b
 
 // runs a script on p; observations are appended to out
 func (c *c20_bls24317) script(p *iop_bls24317.Polynomial, script string) (*iop_bls24317.Polynomial, []string, bool) {
+	return c.scriptD(p, script, c.dom)
+}
+
+// the same with the domains supplied by the caller (domains with a caller-chosen coset shift)
+func (c *c20_bls24317) scriptD(p *iop_bls24317.Polynomial, script string, dom func(int) *fft_bls24317.Domain) (*iop_bls24317.Polynomial, []string, bool) {
 	out := []string{}
 	if script == "-" {
 		return p, out, true
@@ -2345,7 +2498,7 @@ func (c *c20_bls24317) script(p *iop_bls24317.Polynomial, script string) (*iop_b
 			if err != nil || m > 20 {
 				return p, out, false
 			}
-			d := c.dom(int(m))
+			d := dom(int(m))
 			switch tok[0] {
 			case 'L':
 				p = p.ToLagrange(d, tasks...)
@@ -2541,6 +2694,38 @@ func (c *c20_bls24317) DivX(m0, m1 int, form, coeffs, script string) string {
 	res, err := iop_bls24317.DivideByXMinusOne(p, [2]*fft_bls24317.Domain{c.dom(m0), c.dom(m1)})
 	if err != nil {
 		return "err:basis"
+	}
+	return c.dump(res)
+}
+
+// DivideByXMinusOne on domains whose coset shift is `shift` (fft.WithShift). shapeOnly: the line lies outside the domain
+// where the division is defined (shift^|big| = 1): only "no panic, no error, shape of the result" is reported.
+func (c *c20_bls24317) DivXS(m0, m1 int, shift, form, coeffs, script string, shapeOnly bool) string {
+	p, ok := c.newPoly(form, coeffs)
+	if !ok {
+		return "bad-op"
+	}
+	s := c.el(shift)
+	doms := map[int]*fft_bls24317.Domain{}
+	dom := func(m int) *fft_bls24317.Domain {
+		d, ok := doms[m]
+		if !ok {
+			d = fft_bls24317.NewDomain(uint64(1)<<m, fft_bls24317.WithShift(s))
+			doms[m] = d
+		}
+		return d
+	}
+	p, _, ok = c.scriptD(p, script, dom)
+	if !ok {
+		return "bad-op"
+	}
+	res, err := iop_bls24317.DivideByXMinusOne(p, [2]*fft_bls24317.Domain{dom(m0), dom(m1)})
+	if err != nil {
+		return "err:basis"
+	}
+	if shapeOnly {
+		return "undef " + c.showForm(res.Basis, res.Layout) + "/" + c20int(c.shiftOf(res)) + "/" + strconv.FormatInt(int64(res.Size()), 16) +
+			"/" + strconv.FormatInt(int64(len(res.Coefficients())), 16)
 	}
 	return c.dump(res)
 }
@@ -2855,6 +3040,11 @@ func (c *c20_bw6633) newPoly(form, coeffs string) (*iop_bw6633.Polynomial, bool)
 
 // runs a script on p; observations are appended to out
 func (c *c20_bw6633) script(p *iop_bw6633.Polynomial, script string) (*iop_bw6633.Polynomial, []string, bool) {
+	return c.scriptD(p, script, c.dom)
+}
+
+// the same with the domains supplied by the caller (domains with a caller-chosen coset shift)
+func (c *c20_bw6633) scriptD(p *iop_bw6633.Polynomial, script string, dom func(int) *fft_bw6633.Domain) (*iop_bw6633.Polynomial, []string, bool) {
 	out := []string{}
 	if script == "-" {
 		return p, out, true
@@ -2884,7 +3074,7 @@ func (c *c20_bw6633) script(p *iop_bw6633.Polynomial, script string) (*iop_bw663
 			if err != nil || m > 20 {
 				return p, out, false
 			}
-			d := c.dom(int(m))
+			d := dom(int(m))
 			switch tok[0] {
 			case 'L':
 				p = p.ToLagrange(d, tasks...)
@@ -3080,6 +3270,38 @@ func (c *c20_bw6633) DivX(m0, m1 int, form, coeffs, script string) string {
 	res, err := iop_bw6633.DivideByXMinusOne(p, [2]*fft_bw6633.Domain{c.dom(m0), c.dom(m1)})
 	if err != nil {
 		return "err:basis"
+	}
+	return c.dump(res)
+}
+
+// DivideByXMinusOne on domains whose coset shift is `shift` (fft.WithShift). shapeOnly: the line lies outside the domain
+// where the division is defined (shift^|big| = 1): only "no panic, no error, shape of the result" is reported.
+func (c *c20_bw6633) DivXS(m0, m1 int, shift, form, coeffs, script string, shapeOnly bool) string {
+	p, ok := c.newPoly(form, coeffs)
+	if !ok {
+		return "bad-op"
+	}
+	s := c.el(shift)
+	doms := map[int]*fft_bw6633.Domain{}
+	dom := func(m int) *fft_bw6633.Domain {
+		d, ok := doms[m]
+		if !ok {
+			d = fft_bw6633.NewDomain(uint64(1)<<m, fft_bw6633.WithShift(s))
+			doms[m] = d
+		}
+		return d
+	}
+	p, _, ok = c.scriptD(p, script, dom)
+	if !ok {
+		return "bad-op"
+	}
+	res, err := iop_bw6633.DivideByXMinusOne(p, [2]*fft_bw6633.Domain{dom(m0), dom(m1)})
+	if err != nil {
+		return "err:basis"
+	}
+	if shapeOnly {
+		return "undef " + c.showForm(res.Basis, res.Layout) + "/" + c20int(c.shiftOf(res)) + "/" + strconv.FormatInt(int64(res.Size()), 16) +
+			"/" + strconv.FormatInt(int64(len(res.Coefficients())), 16)
 	}
 	return c.dump(res)
 }
@@ -3394,6 +3616,11 @@ func (c *c20_bw6761) newPoly(form, coeffs string) (*iop_bw6761.Polynomial, bool)
 
 // runs a script on p; observations are appended to out
 func (c *c20_bw6761) script(p *iop_bw6761.Polynomial, script string) (*iop_bw6761.Polynomial, []string, bool) {
+	return c.scriptD(p, script, c.dom)
+}
+
+// the same with the domains supplied by the caller (domains with a caller-chosen coset shift)
+func (c *c20_bw6761) scriptD(p *iop_bw6761.Polynomial, script string, dom func(int) *fft_bw6761.Domain) (*iop_bw6761.Polynomial, []string, bool) {
 	out := []string{}
 	if script == "-" {
 		return p, out, true
@@ -3423,7 +3650,7 @@ func (c *c20_bw6761) script(p *iop_bw6761.Polynomial, script string) (*iop_bw676
 			if err != nil || m > 20 {
 				return p, out, false
 			}
-			d := c.dom(int(m))
+			d := dom(int(m))
 			switch tok[0] {
 			case 'L':
 				p = p.ToLagrange(d, tasks...)
@@ -3619,6 +3846,38 @@ func (c *c20_bw6761) DivX(m0, m1 int, form, coeffs, script string) string {
 	res, err := iop_bw6761.DivideByXMinusOne(p, [2]*fft_bw6761.Domain{c.dom(m0), c.dom(m1)})
 	if err != nil {
 		return "err:basis"
+	}
+	return c.dump(res)
+}
+
+// DivideByXMinusOne on domains whose coset shift is `shift` (fft.WithShift). shapeOnly: the line lies outside the domain
+// where the division is defined (shift^|big| = 1): only "no panic, no error, shape of the result" is reported.
+func (c *c20_bw6761) DivXS(m0, m1 int, shift, form, coeffs, script string, shapeOnly bool) string {
+	p, ok := c.newPoly(form, coeffs)
+	if !ok {
+		return "bad-op"
+	}
+	s := c.el(shift)
+	doms := map[int]*fft_bw6761.Domain{}
+	dom := func(m int) *fft_bw6761.Domain {
+		d, ok := doms[m]
+		if !ok {
+			d = fft_bw6761.NewDomain(uint64(1)<<m, fft_bw6761.WithShift(s))
+			doms[m] = d
+		}
+		return d
+	}
+	p, _, ok = c.scriptD(p, script, dom)
+	if !ok {
+		return "bad-op"
+	}
+	res, err := iop_bw6761.DivideByXMinusOne(p, [2]*fft_bw6761.Domain{dom(m0), dom(m1)})
+	if err != nil {
+		return "err:basis"
+	}
+	if shapeOnly {
+		return "undef " + c.showForm(res.Basis, res.Layout) + "/" + c20int(c.shiftOf(res)) + "/" + strconv.FormatInt(int64(res.Size()), 16) +
+			"/" + strconv.FormatInt(int64(len(res.Coefficients())), 16)
 	}
 	return c.dump(res)
 }
